@@ -716,6 +716,8 @@ func ruleC03Pool(r *Run) {
 		}
 	}
 	r.Check(rule, "rux.New:ctxPool.New", newFn.Pos(), okNew, "the pool constructor returns a freshly allocated *Context")
+	// every other sync.Pool of the module: a pooled object must be re-initialised before it is used again
+	genericPools(r, rule, poolF)
 	// who-may-construct responseWriter: only as the writer field of a Context
 	rwT := w.Named("rux", "responseWriter")
 	for _, f := range w.Funcs {
@@ -726,6 +728,102 @@ func ruleC03Pool(r *Run) {
 				}
 			}
 		})
+	}
+}
+
+// genericPools: for every (*sync.Pool).Get outside the context pool, the value obtained must be
+// reset (a method named Reset/Init/reset/Truncate on it) before any other use, or reset before
+// every Put on all paths. A pooled object that keeps bytes/state of the previous user leaks them
+// into the next request.
+func genericPools(r *Run, rule string, ctxPoolF *types.Var) {
+	w := r.W
+	isReset := func(c ssa.CallInstruction, v ssa.Value) bool {
+		args := callArgs(c)
+		if len(args) == 0 || args[0] != v {
+			return false
+		}
+		n := calleeName(c)
+		i := strings.LastIndexByte(n, '.')
+		switch n[i+1:] {
+		case "Reset", "Init", "reset", "init":
+			return true
+		case "Truncate":
+			if len(args) == 2 {
+				if z, ok := constInt(args[1]); ok && z == 0 {
+					return true
+				}
+			}
+		}
+		return false
+	}
+	for _, f := range w.Funcs {
+		n := 0
+		for _, g := range callsIn(f, func(c ssa.CallInstruction) bool {
+			return calleeName(c) == "(*sync.Pool).Get" && !unwrapAddr(callArgs(c)[0]).hasField(ctxPoolF)
+		}) {
+			n++
+			construct := fmt.Sprintf("%s:pooled object#%d", FuncName(f), n)
+			gv := g.Value()
+			if gv == nil {
+				continue
+			}
+			vals := []ssa.Value{gv}
+			for _, ref := range *gv.Referrers() {
+				if ta, ok := ref.(*ssa.TypeAssert); ok {
+					vals = append(vals, ta)
+					for _, r2 := range *ta.Referrers() {
+						if ex, ok := r2.(*ssa.Extract); ok && ex.Index == 0 {
+							vals = append(vals, ex)
+						}
+					}
+				}
+			}
+			okReset := false
+			for _, v := range vals {
+				// a reset that dominates every other use of v
+				var resets []ssa.Instruction
+				for _, ref := range *v.Referrers() {
+					if c, ok := ref.(*ssa.Call); ok && isReset(c, v) {
+						resets = append(resets, ref)
+					}
+				}
+				for _, rs := range resets {
+					all := true
+					for _, ref := range *v.Referrers() {
+						if ref == rs {
+							continue
+						}
+						switch ref.(type) {
+						case *ssa.DebugRef, *ssa.TypeAssert, *ssa.Extract:
+							continue
+						case *ssa.Defer:
+							continue // deferred Put runs at exit
+						}
+						if !dominates(rs, ref) {
+							all = false
+						}
+					}
+					if all {
+						okReset = true
+					}
+				}
+				// or: reset inside the deferred closure / before every Put
+				for _, ref := range *v.Referrers() {
+					if mc, ok := ref.(*ssa.MakeClosure); ok {
+						cl := mc.Fn.(*ssa.Function)
+						for i, b := range mc.Bindings {
+							if b == v && i < len(cl.FreeVars) {
+								for _, c := range callsIn(cl, func(c ssa.CallInstruction) bool { return isReset(c, cl.FreeVars[i]) }) {
+									_ = c
+									okReset = true
+								}
+							}
+						}
+					}
+				}
+			}
+			r.Check(rule, construct, w.InstrPos(g), okReset, map[bool]string{true: "the pooled object is reset before it is used (or before it is returned to the pool)", false: "an object taken from a sync.Pool is used without being reset: whatever an earlier user left in it (e.g. bytes buffered before an error return) leaks into this request's output"}[okReset])
+		}
 	}
 }
 
